@@ -86,8 +86,11 @@ class Run:
         ev = dict(property_id=self.prop, tier=self.tier, seed=self.seed, level=self.level, coverage=cov,
                   assumptions=self.assumptions, wall_s=round(wall, 2), violations=len(self.violations),
                   known_findings=self.known_hits, undecided=self.undecided, crashes=self.crashes)
-        os.makedirs(os.path.join(ROOT, "evidence"), exist_ok=True)
-        with open(os.path.join(ROOT, "evidence", f"{self.prop}.json"), "w") as f:
+        # evidence/<ID>.json describes /repo itself; a run against a scratch tree (VERIF_REPO / --source-root) writes elsewhere
+        scratch = bool(os.environ.get("VERIF_REPO")) or getattr(self, "scratch", False)
+        evdir = os.path.join(ROOT, "replays", "scratch-evidence") if scratch else os.path.join(ROOT, "evidence")
+        os.makedirs(evdir, exist_ok=True)
+        with open(os.path.join(evdir, f"{self.prop}.json"), "w") as f:
             json.dump(ev, f, indent=1, default=repr)
         for line in self.known_hits:
             print(line)
